@@ -514,6 +514,36 @@ func c10Write(e *Env, gen *ssa.Function) {
 	key := "internal/cmd/runner.StepCodeGenerator.Run"
 	w, wPath, wData, wHelper, _ := writeSite(gen)
 	builds := findInvokes(gen, "Build", false)
+	if len(builds) == 0 {
+		// the build half lives in a helper of the package that returns builder.Build's results as they are
+		for _, c := range callsIn(gen, false) {
+			g := c.Common().StaticCallee()
+			if g == nil || g.Pkg != gen.Pkg || len(g.Blocks) == 0 {
+				continue
+			}
+			inv := findInvokes(g, "Build", false)
+			if len(inv) != 1 {
+				continue
+			}
+			okRet := true
+			for _, gb := range g.Blocks {
+				if ret, isRet := gb.Instrs[len(gb.Instrs)-1].(*ssa.Return); isRet && gb != g.Recover {
+					if len(ret.Results) != 2 {
+						okRet = false
+						continue
+					}
+					e0, ok0 := ret.Results[0].(*ssa.Extract)
+					e1, ok1 := ret.Results[1].(*ssa.Extract)
+					if !ok0 || !ok1 || e0.Tuple != inv[0].Value() || e1.Tuple != inv[0].Value() || e0.Index != 0 || e1.Index != 1 {
+						okRet = false
+					}
+				}
+			}
+			if okRet {
+				builds = append(builds, c)
+			}
+		}
+	}
 	if len(builds) != 1 {
 		r.Undecide("R10.2", key+"#build", fmt.Sprintf("%d calls of builder.Build, expected 1", len(builds)))
 		return
@@ -564,6 +594,9 @@ func c10Write(e *Env, gen *ssa.Function) {
 	}
 	pt := taintFrom(gen, fieldLoads...)
 	okPath := pt.has(wPath)
+	if wHelper != nil && taintFrom(wHelper, fieldLoads...).has(wPath) {
+		okPath = true
+	}
 	for _, fl := range fieldLoads {
 		if wPath == fl {
 			okPath = true
@@ -820,6 +853,45 @@ func c10Verbose(e *Env) {
 		return
 	}
 	inv := findInvokes(fn, "Run", true)
+	if len(inv) == 0 {
+		// the decorated step is run by a helper of the package (runParent) that returns its error unchanged
+		for _, c := range callsIn(fn, true) {
+			g := c.Common().StaticCallee()
+			if g == nil || g.Pkg != fn.Pkg || len(g.Blocks) == 0 || errOf(c) == nil {
+				continue
+			}
+			gi := findInvokes(g, "Run", true)
+			if len(gi) != 1 || errOf(gi[0]) == nil {
+				continue
+			}
+			al := errAliases(g, errOf(gi[0]))
+			okRet := true
+			for _, gb := range g.Blocks {
+				if ret, isRet := gb.Instrs[len(gb.Instrs)-1].(*ssa.Return); isRet && gb != g.Recover {
+					if len(ret.Results) != 1 || !al[ret.Results[0]] {
+						// a function with defers spills its result into a cell
+						if ld, isLd := ret.Results[0].(*ssa.UnOp); isLd {
+							if cell, isAl := ld.X.(*ssa.Alloc); isAl {
+								good := false
+								for _, ref := range *cell.Referrers() {
+									if st, isSt := ref.(*ssa.Store); isSt && st.Addr == cell && al[st.Val] {
+										good = true
+									}
+								}
+								if good {
+									continue
+								}
+							}
+						}
+						okRet = false
+					}
+				}
+			}
+			if okRet {
+				inv = append(inv, c)
+			}
+		}
+	}
 	if len(inv) != 1 {
 		r.Undecide("R10.4", key, fmt.Sprintf("%d invocations of parent.Run, expected 1", len(inv)))
 		return
@@ -958,6 +1030,32 @@ func c10Exit(e *Env, calls []callSite) {
 			if ok {
 				fb, has := failureEdgeBlock(mainFn, errOf(ex[0]))
 				ok = has && len(fb.Preds) == 1 && fb.Dominates(c.ins.Block())
+			}
+			if len(ex) == 0 {
+				// main delegates to run() error, whose every return is the result of rootCmd.Execute()
+				for _, hc := range callsIn(mainFn, false) {
+					g := hc.Common().StaticCallee()
+					if g == nil || g.Pkg != mainFn.Pkg || errOf(hc) == nil {
+						continue
+					}
+					gex := findCalls(g, "github.com/spf13/cobra.(Command).Execute", false)
+					if len(gex) != 1 {
+						continue
+					}
+					allExec := true
+					for _, gb := range g.Blocks {
+						if gret, isRet := gb.Instrs[len(gb.Instrs)-1].(*ssa.Return); isRet {
+							if len(gret.Results) != 1 || gret.Results[0] != gex[0].Value() {
+								allExec = false
+							}
+						}
+					}
+					if !allExec {
+						continue
+					}
+					fb, has := failureEdgeBlock(mainFn, errOf(hc))
+					ok = has && len(fb.Preds) == 1 && fb.Dominates(c.ins.Block())
+				}
 			}
 			r.Check(ok, "R10.5", key, "os.Exit(1) is reached exactly when rootCmd.Execute() returned an error", pos)
 		case strings.HasPrefix(c.name, "log.Fatal") || strings.HasPrefix(c.name, "log.Panic") || strings.HasPrefix(c.name, "log.(Logger).Fatal"):
